@@ -101,3 +101,26 @@ void h_GenerateProcessor(void) {
     VPOST(t->IncludeLevel == CurrIncludeLevel && t->IfLevel == 3, "C12: the level remembers the conditional nesting it was opened at");
     VREACH("end");
 }
+
+/* ---- C03 / C11: IRPN group size.  The count argument of IRPN must be positive: a count <= 0 is reported and the
+ * construct is skipped (a negative count made the parameter window step backwards: the assembler never terminated). */
+static long long g_cnt_val; static int g_cnt_ok; static unsigned g_cnt_flags;
+LargeInt EvalStrIntExpressionWithFlags(tStrComp const* pExpr, IntType Type, Boolean* pResult, tSymbolFlags* pFlags) {
+    (void)pExpr; (void)Type; *pResult = (Boolean)(g_cnt_ok != 0); *pFlags = (tSymbolFlags)g_cnt_flags; return g_cnt_val;
+}
+void h_IRPN_count(void) {
+    static tExpandIRPNContext ctx; static tStrComp arg; static char txt[2]; unsigned long ec;
+    txt[0] = 'n'; txt[1] = 0; arg.str.p_str = txt; arg.str.capacity = 2;
+    memset(&ctx, 0, sizeof(ctx)); ctx.ArgCnt = 0; ctx.ErrFlag = False;
+    VND(g_cnt_val, i64); VASSUME(g_cnt_val >= -2147483648LL && g_cnt_val <= 2147483647LL); VND(g_cnt_ok, int); VND(g_cnt_flags, uint);
+    VND(g_err_cnt, ulong); VASSUME(g_err_cnt < 1000000); ec = g_err_cnt;
+    ProcessIRPNArgs(False, &arg, &ctx);
+    if (g_cnt_ok && !(g_cnt_flags & eSymbolFlag_FirstPassUnknown) && g_cnt_val >= 1) {
+        VPOST(!ctx.ErrFlag && ctx.ParamCnt == g_cnt_val && g_err_cnt == ec && ctx.ArgCnt == 1, "C11: a positive IRPN group size is taken as it is");
+        VREACH("ok");
+    } else {
+        VPOST(ctx.ErrFlag, "C03: an IRPN group size that is not a known positive number rejects the construct (it is never used as a step width)");
+        VPOST(!g_cnt_ok || g_err_cnt == ec + 1, "C03: ... with a diagnostic");
+        VREACH("rejected");
+    }
+}
